@@ -435,6 +435,7 @@ fn replay(p: &P17, choices: &[usize]) -> Option<String> {
     let shm = Shm::new(1 << 4, 1 << 16);
     let pid = unsafe { libc::fork() };
     if pid == 0 {
+        crate::watchdog::arm();
         let sched = Sched::new(Mode::Fixed);
         sched.core().forced = choices.to_vec();
         let slot: Arc<Mutex<Option<(String, String)>>> = Arc::new(Mutex::new(None));
